@@ -64,7 +64,7 @@ def body(ck):
     n = 70 if quick else 700
     cases, cj, metas = [], [], []
     for i in range(n):
-        lit, j, meta = gen_rollout_case(ck, ck.rng, i)
+        lit, j, meta = gen_rollout_case(ck, ck.rng, i, half_bounded=True)
         cases.append(lit); cj.append(j); metas.append(meta)
         release_jit(i, 25)
     ck.current_case = None
